@@ -1773,20 +1773,20 @@ func main() {
 	})
 	run.Count(fmt.Sprintf("sampled-depth-%d-nodes=%d", depth+3, n2))
 
-	for i := 0; i < run.Pick(2400, 45000); i++ {
+	for i := 0; i < run.Pick(2400, 32000); i++ {
 		g.random(20 + rng.Intn(run.Pick(40, 80)))
 		if g.failures > 8 {
 			break
 		}
 	}
-	for i := 0; i < run.Pick(900, 15000); i++ {
+	for i := 0; i < run.Pick(900, 9000); i++ {
 		g.txShaped(3 + rng.Intn(run.Pick(8, 12)))
 		if g.failures > 8 {
 			break
 		}
 	}
 	// the callers of the snapshot API, on the real executor (tx.go)
-	for i := 0; i < run.Pick(100, 1500); i++ {
+	for i := 0; i < run.Pick(100, 1000); i++ {
 		g.txSession(i)
 		if g.failures > 8 {
 			break
